@@ -3,6 +3,7 @@ import PsVerif.Model.Cipher
 import PsVerif.Model.T1Encode
 import Driver.Canon
 import PsVerif.Model.PFB
+import PsVerif.Model.PFBEager
 import PsVerif.Model.Names
 import PsVerif.Model.Query
 import PsVerif.Model.T1Decode
@@ -135,6 +136,15 @@ def handle (line : String) : String :=
     match bytesOfHex stream, mapM? String.toNat? (splitList sizes ","), mapM? String.toNat? (splitList sched ",") with
     | some bs, some ns, some sc =>
       let calls := PFB.drain { src := toU8 bs, sched := sc } ns
+      String.intercalate "|" (calls.map (fun c =>
+        hexOfBytes (ofU8 c.1) ++ ":" ++ (match c.2 with
+          | none => "nil" | some .eof => "EOF" | some .unexpectedEOF => "unexpectedEOF" | some .invalidPFB => "invalidPFB")))
+    | _, _, _ => "bad-op"
+  | ["pfbe", stream, sizes, sched] =>
+    -- the same decoder over a source that reports EOF together with its last bytes
+    match bytesOfHex stream, mapM? String.toNat? (splitList sizes ","), mapM? String.toNat? (splitList sched ",") with
+    | some bs, some ns, some sc =>
+      let calls := PFBEager.drainE { src := toU8 bs, sched := sc } ns
       String.intercalate "|" (calls.map (fun c =>
         hexOfBytes (ofU8 c.1) ++ ":" ++ (match c.2 with
           | none => "nil" | some .eof => "EOF" | some .unexpectedEOF => "unexpectedEOF" | some .invalidPFB => "invalidPFB")))
